@@ -62,7 +62,9 @@ def gen() -> None:
 # ====================================================================== harness
 
 TEXT_ALPHA = ["a", "b", "Z", "0", " ", "+", "&", "=", "%", "%41", "%zz", "/", "?", "#", ";", "é", "€", "\U0001f600", "\x00", "\n", "\r\n",
-              "'", "~", "-", "_", ".", "!", "*", "(", ")", ",", ":", "@", "$", "\x7f", "\xa0", "ÿ"]
+              "'", "~", "-", "_", ".", "!", "*", "(", ")", ",", ":", "@", "$", "\x7f", "\xa0", "ÿ",
+              # characters str.splitlines / str.strip / str.isspace treat specially but bytes.splitlines does not
+              "\x0b", "\x0c", "\x1c", "\x1d", "\x1e", "\x1f", "\x85", "\u2028", "\u2029", "\u3000", "\t"]
 NAME_FORBIDDEN = set('"\\\r\n')
 
 
@@ -308,7 +310,8 @@ def main(chk: Check) -> None:
         chk.broken("translator", "C02/Gen.v", str(e))
     chk.forbidden_scan()
     if chk.coq_make(["C02/Proofs.vo", "C02/Encoder.vo", "C02/Extract.vo"]):
-        chk.audit_props("C02/Props.v")
+        if chk.audit_props("C02/Props.v") and chk.tier == "thorough":
+            chk.coqchk(["Wz.C02.Props"])
     else:
         chk.cov["obligations"] += 1
     chk.trusted += [
